@@ -206,6 +206,69 @@ def kresults_agree(r1, r2, rtol=0.0, atol=0.0):
     return None
 
 
+def strip_comments(src):
+    """remove (nested) Coq comments and string literals"""
+    out = []
+    depth = 0
+    i = 0
+    n = len(src)
+    instr = False
+    while i < n:
+        ch = src[i]
+        if depth == 0 and ch == '"':
+            instr = not instr
+            i += 1
+            continue
+        if instr:
+            if ch == '\n':
+                out.append(ch)
+            i += 1
+            continue
+        if src.startswith('(*', i):
+            depth += 1
+            i += 2
+            continue
+        if depth and src.startswith('*)', i):
+            depth -= 1
+            i += 2
+            continue
+        if depth == 0 or ch == '\n':
+            out.append(ch)
+        i += 1
+    return ''.join(out)
+
+
+def forbidden_scan():
+    """No Axiom/Parameter/Conjecture/Admitted/admit/Admit Obligations, no Variable/Hypothesis/Context
+    outside a Section, no switched-off kernel checks, anywhere under coq/ (comments and strings ignored)."""
+    bad = []
+    decl = re.compile(r'(?:^|\.\s+|\n)\s*(?:(?:Local|Global|Polymorphic|Monomorphic|#\[[^\]]*\])\s+)*'
+                      r'(Axiom|Axioms|Parameter|Parameters|Conjecture|Conjectures)\b')
+    for path in glob.glob(os.path.join(COQ, '**', '*.v'), recursive=True):
+        rel = os.path.relpath(path, COQ)
+        if rel.startswith('scratch/'):
+            continue
+        src = strip_comments(open(path).read())
+        for m in decl.finditer(src):
+            bad.append('%s: %s declaration' % (rel, m.group(1)))
+        for w in ('Admitted', 'Admit Obligations', 'Unset Guard Checking', 'Unset Positivity Checking', 'Unset Universe Checking',
+                  'bypass_check', 'type-in-type', 'impredicative-set'):
+            if re.search(r'\b' + re.escape(w), src):
+                bad.append('%s: %s' % (rel, w))
+        if re.search(r'\badmit\b', src):
+            bad.append('%s: admit' % rel)
+        depth = 0
+        for line in src.split('\n'):
+            ls = line.strip()
+            if re.match(r'(Section|Module Type|Module)\s+\w+\s*\.', ls) and not ls.startswith('Module Type') and ls.startswith('Section'):
+                depth += 1
+            elif re.match(r'End\s+\w+\s*\.', ls) and depth > 0:
+                depth -= 1
+            elif depth == 0 and re.match(r'(?:(?:Local|Global|#\[[^\]]*\])\s+)*(Variable|Variables|Hypothesis|Hypotheses|Context)\b', ls):
+                bad.append('%s: %s outside a Section' % (rel, ls[:60]))
+    return bad
+
+
 # ---------------------------------------------------------------- proofs
 def check_theorems(pid, extra_files=()):
     """Compile coq/Properties/<pid>.v afresh (after making its dependencies) and
@@ -218,11 +281,9 @@ def check_theorems(pid, extra_files=()):
     src = open(os.path.join(COQ, vfile)).read()
     names = re.findall(r'^\s*(?:Theorem|Lemma|Corollary|Example)\s+(\w+)', src, re.M)
     # forbid escape hatches anywhere in the development
-    bad = sh(r"grep -rnE '\b(Admitted|admit|Axiom|Parameter|Conjecture|Unset Guard|bypass_check|Admit Obligations)\b' "
-             r"--include=*.v . || true", cwd=COQ)
-    bad = '\n'.join(l for l in bad.split('\n') if l and not re.search(r'\(\*.*(Axiom|Parameter|admit).*\*\)', l))
-    if bad.strip():
-        raise BuildError('forbidden declaration in development', bad)
+    bad = forbidden_scan()
+    if bad:
+        raise BuildError('forbidden declaration in development', '\n'.join(bad))
     axioms = set()
     closed = 0
     for blk in re.split(r'\n(?=Closed under the global context|Axioms:)', '\n' + out):
